@@ -221,8 +221,9 @@ pub fn run(ctx: &mut Ctx) {
         edge_pawns(ctx);
     }
     // fixed corners and their neighbours
-    for (i, p) in gen::fixed_positions().iter().enumerate() {
-        if ctx.mine(i as u64) {
+    let fixed: Vec<MPos> = if heavy { gen::fixed_positions() } else { gen::fixed_positions_slice(ctx.shard * 9, 16).into_iter().map(|x| x.1).collect() };
+    for (i, p) in fixed.iter().enumerate() {
+        if ctx.mine(i as u64) || !heavy {
             check_raw(ctx, p, "fixed");
             if heavy || i % 8 == 0 {
                 neighbours(ctx, &p.normalized());
